@@ -62,7 +62,7 @@ def main(ck, tier, w):
     cfg = 'CoreIndex_q' if quick else 'CoreIndex_t'
     res = run.tlc('CoreIndex', cfg, workers=8, timeout=1800)
     ck.add_tlc(res, cfg)
-    ck.require_actions(res, ['AcceptHeader', 'AcceptBlock', 'DisconnectToFork', 'ConnectOk', 'ConnectFail', 'Prune'], cfg)
+    ck.require_actions(res, ['AcceptHeader', 'AcceptBlock', 'DisconnectToFork', 'ConnectOk', 'ConnectFail', 'Prune', 'Invalidate'], cfg)
     uniq = {}
     for r in res.replay:
         r['recs'] = sorted(r['recs'], key=lambda x: x['id'])
